@@ -128,7 +128,8 @@ class WeightedRelativeEntropy(ProbabilityBasedLossFunction):
         self, mode_weight: str, data: List[Tuple[int, np.ndarray]]
     ) -> None:
         if mode_weight == "identity":
-            pass
+            # identity weights: drop weights left over from an earlier configuration of this object
+            self.set_weights(None)
         elif mode_weight == "custom":
             self.set_weights(self.option.weights)
 
